@@ -80,7 +80,13 @@ fn auth_data(variant: u8) -> AuthenticatorData {
     if variant >= 1 {
         let (x, y) = public_xy_from_scalar(&fixed_scalar(1));
         let key = coset::CoseKeyBuilder::new_ec2_pub_key(coset::iana::EllipticCurve::P_256, x.to_vec(), y.to_vec()).algorithm(coset::iana::Algorithm::ES256).build();
-        ad.set_attested_credential_data(passkey_types::ctap2::AttestedCredentialData::new(Aaguid::new_empty(), vec![5; 16], key).unwrap())
+        // variant 3 (long members): the longest credential id WebAuthn allows; variant 4: one more
+        let id_len = match variant {
+            3 => 1023,
+            4 => 1024,
+            _ => 16,
+        };
+        ad.set_attested_credential_data(passkey_types::ctap2::AttestedCredentialData::new(Aaguid::new_empty(), vec![5; id_len], key).unwrap())
     } else {
         ad
     }
@@ -109,7 +115,7 @@ fn build(ty: &str, pattern: u32, variant: u8) -> Result<(Vec<u8>, String), Strin
         }),
         "makeCredential.response" => ser(&make_credential::Response {
             fmt: "none".into(),
-            auth_data: auth_data(1),
+            auth_data: auth_data(if variant >= 3 { variant } else { 1 }),
             att_stmt: Cbor::Map(vec![]),
             ep_att: has(4).then_some(variant % 2 == 0),
             large_blob_key: has(5).then(|| vec![6; blen(variant, 32)].into()),
